@@ -29,14 +29,16 @@ inductive Label where
   | probe (t ty : Nat) (hasDefault : Bool)
   | spawn (t : Nat)
   | finish (t : Nat)
+  | foreignExit (t b : Nat)     -- task t calls `__exit__` on a block object that another task entered
 deriving Repr
 
 def Label.task : Label → Nat
-  | .enter t _ _ _ | .left t _ | .probe t _ _ | .spawn t | .finish t => t
+  | .enter t _ _ _ | .left t _ | .probe t _ _ | .spawn t | .finish t | .foreignExit t _ => t
 
 inductive Obs where
   | none
   | supplied (i : Inst)       -- the instance some enclosing block supplied
+  | refused                   -- `ContextVar.reset` rejects a token created in another task's context
   | default                   -- the caller's explicit default
   | constructed               -- a default-constructed instance
   | missingState
@@ -95,6 +97,10 @@ def step (ctor : Nat → Bool) (s : Sys) : Label → Option (Sys × Obs)
   | .finish t =>
     match s[t]? with
     | some tk => if tk.done ∨ tk.frames ≠ [] then none else some (s.set t { tk with done := true }, .none)
+    | none => none
+  | .foreignExit t _ =>
+    match s[t]? with
+    | some tk => if tk.done then none else some (s, .refused)     -- nothing changes for anybody
     | none => none
 
 /-- run a label sequence, collecting the observations; a label that is not enabled is reported -/
